@@ -46,7 +46,18 @@ def make_error(beh):
     return exc.JsonRpcError(beh['code'], beh['message'], **kw)
 
 
-def build_function(name, beh, log, is_async=False):
+_DELAY = [1.0e9]
+
+
+def _pause():
+    from .. import sleeplog
+    _DELAY[0] -= 1.0
+    if _DELAY[0] < 1.0:
+        _DELAY[0] = 1.0e9
+    return sleeplog._real_asleep(_DELAY[0])
+
+
+def build_function(name, beh, log, is_async=False, pause=True):
     spec = beh['params']
     parts = []
     ns = {'REQ': REQ}
@@ -56,9 +67,18 @@ def build_function(name, beh, log, is_async=False):
         else:
             ns['_d%d' % i] = d
             parts.append('%s=_d%d' % (p, i))
-    src = '%sdef %s(%s):\n    return _body(dict(%s))\n' % (
-        'async ' if is_async else '', name.replace('.', '_'), ', '.join(parts),
-        ', '.join('%s=%s' % (p, p) for p, _ in spec))
+    if is_async and not pause:
+        src = 'async def %s(%s):\n    return _body(dict(%s))\n' % (
+            name.replace('.', '_'), ', '.join(parts), ', '.join('%s=%s' % (p, p) for p, _ in spec))
+    elif is_async:
+        # a coroutine method logs and computes at once, then suspends on a (virtual) timer that is SHORTER for every
+        # later started call: within a batch the elements complete in reverse order, so that anything relying on
+        # completion order instead of request order shows up even in the checks that do not enumerate schedules
+        src = 'async def %s(%s):\n    r = _body(dict(%s))\n    await _pause()\n    return r\n' % (
+            name.replace('.', '_'), ', '.join(parts), ', '.join('%s=%s' % (p, p) for p, _ in spec))
+    else:
+        src = 'def %s(%s):\n    return _body(dict(%s))\n' % (
+            name.replace('.', '_'), ', '.join(parts), ', '.join('%s=%s' % (p, p) for p, _ in spec))
 
     def _body(bound):
         log.append((name, bound))
@@ -73,15 +93,16 @@ def build_function(name, beh, log, is_async=False):
         raise AssertionError(kind)
 
     ns['_body'] = _body
+    ns['_pause'] = _pause
     exec(src, ns)
     f = ns[name.replace('.', '_')]
     f.__name__ = name.replace('.', '_')
     return f
 
 
-def register(dispatcher, table, log, is_async=False):
+def register(dispatcher, table, log, is_async=False, pause=True):
     for name, beh in table.items():
-        dispatcher.add(build_function(name, beh, log, is_async=is_async), name=name)
+        dispatcher.add(build_function(name, beh, log, is_async=is_async, pause=pause), name=name)
 
 
 # the standard behaviour table of C01-C03 / C11 / C13
